@@ -894,9 +894,21 @@ class IRGenerator:
                     else:
                         default_value = field._ast_node.default
                     if not (field._ast_node.type_ref.nullable and default_value is None):
+                        # A default is a literal for a primitive type or a
+                        # tag for a union; nothing else can have one.
+                        underlying_type = unwrap_aliases(unwrap_nullable(field.data_type)[0])[0]
+                        if not (is_union_type(underlying_type)
+                                if isinstance(default_value, TagRef)
+                                else is_primitive_type(underlying_type)):
+                            raise InvalidSpec(
+                                'Field %s has an invalid default: a %s field cannot default to %s.' %
+                                (quote(field._ast_node.name), underlying_type.name,
+                                 'a tag' if isinstance(default_value, TagRef) else 'a literal'),
+                                field._ast_node.lineno, field._ast_node.path)
                         # Verify that the type of the default value is correct for this field
                         try:
-                            if field.data_type.name in ('Float32', 'Float64'):
+                            if field.data_type.name in ('Float32', 'Float64') and \
+                                    isinstance(default_value, int):
                                 # You can assign int to the default value of float type
                                 # However float type should always have default value in float
                                 default_value = float(default_value)
